@@ -4,7 +4,7 @@
     the characters since the last one, tabs advancing to the next tab stop); [nunits m t]
     the number of units. Every result is [Ok _]: no navigation function panics or diverges
     on a canonical base, for any text, any line ending and any tab width >= 1. *)
-From Tephra Require Import MetricsSpec MetricsFacts.
+From Tephra Require Import MetricsSpec MetricsFacts Source SourceFacts.
 
 (** What [cpos] means: bytes of the first k units, number of line endings among them, display
     width (tab stops) of the characters since the last line ending. *)
@@ -115,3 +115,30 @@ Theorem C19_example :
   = [mkpos 0 0 0; mkpos 1 0 1; mkpos 2 0 4; mkpos 4 0 5; mkpos 5 1 0; mkpos 6 1 1].
 Proof. cbn. repeat split. repeat constructor. Qed.
 Print Assumptions C19_example.
+
+(** * The same advances through the SourceText wrappers of a source that has a start position
+    (a window, or [with_start_position]): parent coordinates in, parent coordinates out. [gpos m us off i] is the
+    parent position of the i-th unit boundary of the source whose text reads [us] and whose start position is [off]. *)
+Theorem C19_source_after_str :
+  forall m, 1 <= tabw m -> forall us, wf_units m us -> forall off name i pat, i <= length us -> wf_text pat ->
+  exists r, src_position_after_str (mksource (ctext m us) name m off) (gpos m us off i) pat = Ok r /\
+    (forall q, r = Some q -> exists j, i + j <= length us /\ ctext m (firstn j (skipn i us)) = pat /\ q = gpos m us off (i + j)) /\
+    (forall j, i + j <= length us -> ctext m (firstn j (skipn i us)) = pat -> r = Some (gpos m us off (i + j))).
+Proof. exact src_position_after_str_G. Qed.
+Print Assumptions C19_source_after_str.
+
+Theorem C19_source_chars_matching :
+  forall m, 1 <= tabw m -> forall us, wf_units m us -> forall off name i f, i <= length us ->
+  src_position_after_chars_matching (mksource (ctext m us) name m off) (gpos m us off i) f =
+    Ok (match class_run m f (skipn i us) with 0 => None | j => Some (gpos m us off (i + j)) end)
+  /\ src_next_position_after_chars_matching (mksource (ctext m us) name m off) (gpos m us off i) f =
+    Ok (match skipn i us with
+        | u :: _ => if forallb f (utext m u) then Some (gpos m us off (S i)) else None
+        | [] => None
+        end).
+Proof.
+  intros m Htab us Hwf off name i f Hi. split.
+  - exact (src_position_after_chars_matching_G m Htab us Hwf off name i f Hi).
+  - exact (src_next_position_after_chars_matching_G m Htab us Hwf off name i f Hi).
+Qed.
+Print Assumptions C19_source_chars_matching.
